@@ -118,9 +118,11 @@ func (sk *SpaceKeeper) spacePlotter() {
 			return
 		}
 		sk.stateLock.Unlock()
+		verifPlotterEvent(sk, "step1", sid)
 
 		// Step 2: plot space (wait for finishing)
 		ws.Plot()
+		verifPlotterEvent(sk, "plotReturned", sid)
 
 		// Step 3: change workSpace state
 		sk.stateLock.Lock()
@@ -162,6 +164,7 @@ func (sk *SpaceKeeper) spacePlotter() {
 	defer func() {
 		sk.queue.Reset()
 	}()
+	defer verifPlotterEvent(sk, "exit", "")
 
 	for {
 		for !sk.queue.Empty() {
@@ -173,13 +176,16 @@ func (sk *SpaceKeeper) spacePlotter() {
 			}
 
 			qws := sk.queue.PopItem()
+			verifPlotterEvent(sk, "popped", qws.ws.id.String())
 			killMonitorCh := make(chan struct{}, 1)
 			wg.Add(1)
 			go monitor(qws.ws, killMonitorCh)
 			plotSpace(qws)
 			close(killMonitorCh)
+			verifPlotterEvent(sk, "done", qws.ws.id.String())
 		}
 
+		verifPlotterEvent(sk, "idle", "")
 		select {
 		case <-sk.quit:
 			wg.Wait()
